@@ -68,6 +68,7 @@ type Axiom struct {
 	File  string
 	Uses  []string
 	Induct string
+	Patterns []*SX
 }
 
 type Engine struct {
@@ -394,6 +395,17 @@ func (e *Engine) loadSpecFile(path string, pkg *ssa.Package) error {
 				ax.Uses = strings.Fields(strings.ReplaceAll(body[5:j], ",", " "))
 				body = strings.TrimSpace(body[j+1:])
 			}
+			if strings.HasPrefix(body, "pattern ") {
+				j := strings.Index(body, ";")
+				for _, pt := range splitTop(body[8:j]) {
+					px, err := ParseSpec(pt)
+					if err != nil {
+						return fmt.Errorf("%s: %v", path, err)
+					}
+					ax.Patterns = append(ax.Patterns, px)
+				}
+				body = strings.TrimSpace(body[j+1:])
+			}
 			if strings.HasPrefix(body, "induct ") {
 				j := strings.Index(body, ";")
 				ax.Induct = strings.TrimSpace(body[7:j])
@@ -548,7 +560,7 @@ func (u *Unit) specPreamble(extraAxioms []string) string {
 				defs[n] = fmt.Sprintf("(declare-fun %s (%s) %s)", n, strings.Join(srt, " "), u.tc.smt(sf.Result))
 			} else {
 				env := &SpecEnv{u: u, vars: map[string]Val{}, st: &State{heaps: map[string]Term{}}, pkg: sf.Pkg, bound: bound, ctx: "spec " + n}
-				body := env.eval(sf.Body)
+				body := env.evalAs(sf.Body, sf.Result)
 				if isLit(body) {
 					body = env.coerce(body, sf.Result)
 				}
@@ -576,9 +588,28 @@ func (u *Unit) specPreamble(extraAxioms []string) string {
 			changed = true
 		}
 	}
-	for _, n := range e.specOrder {
+	// emit in dependency order
+	emitted := map[string]bool{}
+	var emit func(n string)
+	emit = func(n string) {
+		if emitted[n] {
+			return
+		}
+		emitted[n] = true
+		if sf := e.specFuncs[n]; sf != nil && sf.Body != nil {
+			for _, d := range specDeps(sf.Body, e, nil) {
+				if d != n {
+					emit(d)
+				}
+			}
+		}
 		if d, ok := defs[n]; ok {
 			sb.WriteString(d + "\n")
+		}
+	}
+	for _, n := range e.specOrder {
+		if _, ok := defs[n]; ok {
+			emit(n)
 		}
 	}
 	return sb.String()
@@ -590,6 +621,20 @@ func (u *Unit) axiomText(name string) string {
 		panic(unsupported{"unknown axiom/lemma " + name})
 	}
 	env := &SpecEnv{u: u, vars: map[string]Val{}, st: &State{heaps: map[string]Term{}}, pkg: ax.Pkg, bound: map[string]Term{}, ctx: "axiom " + name}
+	if ax.X.Op == "forall" && len(ax.Patterns) > 0 {
+		var decl []string
+		for i, bn := range ax.X.BindNames {
+			s := u.eng.sortByName(u.tc, ax.X.BindTypes[i], ax.Pkg)
+			env.bound[bn] = Term{"q_" + bn, s}
+			decl = append(decl, "(q_"+bn+" "+u.tc.smt(s)+")")
+		}
+		body := env.evalBool(ax.X.Args[0])
+		var pts []string
+		for _, p := range ax.Patterns {
+			pts = append(pts, env.eval(p).S)
+		}
+		return "(assert (forall (" + strings.Join(decl, " ") + ") (! " + body.S + " :pattern (" + strings.Join(pts, " ") + "))))"
+	}
 	t := env.evalBool(ax.X)
 	return "(assert " + t.S + ")"
 }
@@ -748,4 +793,29 @@ func (e *Engine) globalReassigned(g *ssa.Global) bool {
 		}
 	}
 	return e.reassigned[g]
+}
+
+// specDeps lists the spec functions called in x (through macros as well).
+func specDeps(x *SX, e *Engine, acc []string) []string {
+	if x == nil {
+		return acc
+	}
+	if x.Op == "call" && x.Args[0].Op == "ident" {
+		name := x.Args[0].Tok
+		if _, ok := e.specFuncs[name]; ok {
+			acc = append(acc, name)
+		}
+		if mc, ok := e.macros[name]; ok {
+			acc = specDeps(mc.Body, e, acc)
+		}
+	}
+	if x.Op == "ident" {
+		if _, ok := e.specFuncs[x.Tok]; ok {
+			acc = append(acc, x.Tok)
+		}
+	}
+	for _, a := range x.Args {
+		acc = specDeps(a, e, acc)
+	}
+	return acc
 }
